@@ -37,9 +37,12 @@ def split(path):
     return traces
 
 
-def mc_cfg(fix, inv, reqs="{1, 2}"):
-    return ("CONSTANTS MaxConn = 3  Reqs = %s  Fix = %s\nSPECIFICATION Spec\nINVARIANTS TypeOK %s\nCHECK_DEADLOCK FALSE\n"
-            % (reqs, fix, inv))
+REDIAL_FIRST = "TRUE"   # the hand-over order of the code: FALSE = requeue, then ReConnect; TRUE = ReConnect, then requeue
+
+
+def mc_cfg(fix, inv, reqs="{1, 2}", redial_first=None):
+    return ("CONSTANTS MaxConn = 3  Reqs = %s  Fix = %s  RedialFirst = %s\nSPECIFICATION Spec\nINVARIANTS TypeOK %s\nCHECK_DEADLOCK FALSE\n"
+            % (reqs, fix, redial_first or REDIAL_FIRST, inv))
 
 
 def run(ctx):
@@ -71,7 +74,7 @@ def run(ctx):
     traces = []
     for out, _ in outs:
         traces += split(out)
-    cfg = open(os.path.join(VERIF, "spec", SPEC, "Trace.cfg")).read()
+    cfg = open(os.path.join(VERIF, "spec", SPEC, "Trace.cfg")).read().replace("@REDIAL_FIRST@", REDIAL_FIRST)
     k = 8
     parts = [traces[i::k] for i in range(k)]
     states = trans = 0
@@ -193,6 +196,19 @@ def notification_path(ctx):
                                 "caller %d's call, issued after the client had received the server's close notification, ended with %s "
                                 "after %d ms although the server answers every request it receives" % (e["c"], e["k"], e.get("ms", -1)),
                                 {"scenario": t[0], "event": e, "trace": t[:300]})
+        # one close notification: connections dialled before it may be given up (the announced one is among them; concurrent
+        # first calls can open more than one); the single connection dialled afterwards is healthy (the peer closes nothing in
+        # these runs) and must neither be closed by the client nor be followed by yet another dial
+        ni = next((i for i, e in enumerate(t) if e["e"] == "PeerSend" and e.get("kind") == "notify"), None)
+        if ni is not None:
+            before = {e["lp"] for e in t[:ni] if e["e"] == "Dialed"}
+            after = [e["lp"] for e in t[ni:] if e["e"] == "Dialed"]
+            closed_healthy = [e["lp"] for e in t[ni:] if e["e"] == "ConnClosed" and e["lp"] not in before]
+            if len(after) > 1 or closed_healthy:
+                ctx.violate("C11:notify:healthy-connection-closed",
+                            "after one close notification the client dialled %d new connections and closed the one(s) with local port %s, "
+                            "dialled after the notification, although the server closes nothing" % (len(after), closed_healthy),
+                            {"scenario": t[0], "dialled_before": sorted(before), "dialled_after": after, "closed_after": closed_healthy, "trace": t[:300]})
         if not pushed:
             raise Inconclusive("notify run %d: the close notification never reached AdapterProxy.Recv" % t[0]["sc"])
     if second == 0:
